@@ -139,9 +139,16 @@ Variable float_paths : list (list string).
 
 (* [null_edges_ok] = true: the code as it is (since /repo c3a9d07e) keeps a stored null (include_edge_bins off) as
    None; false: the reader before that commit, which called .items() on it and raised (regression witness) *)
-Definition hourly_from_doc_gen (null_edges_ok : bool) (d : json) : option hourly_state :=
+(* the stored scaler entries re-ordered by NAME along another list of names *)
+Definition reorder (names : list string) (fs : list (string * json)) : option (list (string * json)) :=
+  opt_all (map (fun k => option_map (fun v => (k, v)) (get k fs)) names).
+
+(* [by_train_features] = false: the code as it is -- the scaler arrays are the stored values in the stored order, which
+   is the order of the stored ts_features (the sorted order the scalers were fitted in); true: a reader that looks the
+   values up by name along settings.train_features (the order the user listed them in) -- a regression witness *)
+Definition hourly_from_doc_gen (null_edges_ok by_train_features : bool) (d : json) : option hourly_state :=
   do st <- field "settings" d;
-  do _tf <- bind (field "train_features" st) parse_strings;
+  do tf <- bind (field "train_features" st) parse_strings;
   do cl <- bind (bind (field "temporal_clusters" d) as_arr) (fun l => opt_all (map parse_triple l));
   do edges <- bind (field "temperature_bin_edges" d) parse_floats;
   do ec <- match field "temperature_edge_bin_coefficients" d with
@@ -151,7 +158,8 @@ Definition hourly_from_doc_gen (null_edges_ok : bool) (d : json) : option hourly
            end;
   do ts <- bind (field "ts_features" d) parse_strings;
   do cat <- bind (field "categorical_features" d) parse_strings;
-  do fs <- bind (field "feature_scaler" d) as_obj;
+  do fs0 <- bind (field "feature_scaler" d) as_obj;
+  do fs <- (if by_train_features then reorder tf fs0 else Some fs0);
   do pairs <- opt_all (map (fun kv => match snd kv with
                                       | JArr (a :: b :: _) => match as_float a, as_float b with
                                                              | Some x, Some y => Some (x, y) | _, _ => None end
@@ -174,8 +182,9 @@ Definition hourly_from_doc_gen (null_edges_ok : bool) (d : json) : option hourly
           hs_y := y; hs_coef := coef; hs_intercept := icpt; hs_metrics := bm; hs_warnings := ws; hs_dq := dq;
           hs_error := err; hs_tz := tz; hs_version := ver |}.
 
-Definition hourly_from_doc := hourly_from_doc_gen true.
-Definition hourly_from_doc_before_c3a9d07e := hourly_from_doc_gen false.
+Definition hourly_from_doc := hourly_from_doc_gen true false.
+Definition hourly_from_doc_before_c3a9d07e := hourly_from_doc_gen false false.
+Definition hourly_from_doc_by_train_features := hourly_from_doc_gen true true.
 
 End Reload.
 
@@ -202,6 +211,16 @@ Definition inputs_of (s : hourly_state) : hourly_inputs :=
      hi_edge_coeffs := hs_edge_coeffs s; hi_ts_features := hs_ts_features s; hi_cat_features := hs_cat_features s;
      hi_loc := hs_loc s; hi_scale := hs_scale s; hi_y := hs_y s; hi_coef := hs_coef s;
      hi_intercept := hs_intercept s; hi_tz := hs_tz s; hi_dq := hs_dq s |}.
+
+(* the (location, scale) the scalers apply to a feature column: column i of the scaler arrays belongs to
+   _ts_features[i] (the scalers were fitted on df[train_features] in the sorted feature order) *)
+Fixpoint scaler_of (name : string) (ts : list string) (loc scale : list float) : option (float * float) :=
+  match ts, loc, scale with
+  | k :: ts', a :: loc', b :: scale' => if String.eqb k name then Some (a, b) else scaler_of name ts' loc' scale'
+  | _, _, _ => None
+  end.
+Definition feature_scaler_of (s : hourly_state) (name : string) : option (float * float) :=
+  scaler_of name (hs_ts_features s) (hs_loc s) (hs_scale s).
 
 (* the edge-bin coefficient the prediction path looks up: self._T_edge_bin_coeffs[n] with an int n *)
 Fixpoint edge_lookup (n : Z) (l : list (Z * list (string * float))) : option (list (string * float)) :=
